@@ -49,6 +49,7 @@ type FuncReport struct {
 	Obligations int            `json:"obligations"`
 	ByKind      map[string]int `json:"by_kind"`
 	CallRules   map[string]int `json:"call_rules"`
+	Abstracted  []string       `json:"abstracted_callees,omitempty"` // contract-less callees abstracted by the import-closure frame rule
 	Relied      []string       `json:"relied_on_contracts"`
 	Assumptions []string       `json:"assumptions"`
 	Error       string         `json:"error,omitempty"`
@@ -577,6 +578,10 @@ func gen(args []string) {
 			}
 			rep.Loops = len(fx.loops)
 			rep.CallRules = fx.callStats
+			for n := range fx.havocNames {
+				rep.Abstracted = append(rep.Abstracted, n)
+			}
+			sort.Strings(rep.Abstracted)
 			for c := range fx.usedContracts {
 				rep.Relied = append(rep.Relied, c)
 			}
